@@ -70,6 +70,10 @@ def run(repo, rep, tier):
     from . import c11
     L.borrow(repo, rep, "R12.6", "C11", c11._location,
              ("location-line", "location-column"), minimum=2)
+    # a string expression keeps the position of its text (C04 owns it)
+    from . import c04 as _c04
+    L.borrow(repo, rep, "R12.2", "C04", _c04.tales_details,
+             ("token-rewrap-guard", "slice-one-group"), minimum=2)
     L.state_rule(repo, rep)
 
 
